@@ -1,0 +1,53 @@
+//go:build verif
+
+package bttest
+
+import (
+	"sync/atomic"
+	"time"
+)
+
+// Instrumentation for external runtime monitors; only compiled with the "verif" build tag.
+
+var verifHandler atomic.Value // of func(point string, key []byte)
+
+// VerifSetHandler installs (or, with nil, removes) the callback invoked at every instrumented point.
+func VerifSetHandler(h func(point string, key []byte)) {
+	if h == nil {
+		h = func(string, []byte) {}
+	}
+	verifHandler.Store(h)
+}
+
+func verifPoint(point string, key []byte) {
+	if h, _ := verifHandler.Load().(func(string, []byte)); h != nil {
+		h(point, key)
+	}
+}
+
+// VerifRunGC runs one garbage-collection pass over the named table, now, with the server's clock.
+// It reports whether the table exists.
+func VerifRunGC(srv *Server, table string, force bool) bool {
+	srv.s.mu.Lock()
+	tbl, ok := srv.s.tables[table]
+	srv.s.mu.Unlock()
+	if !ok {
+		return false
+	}
+	tbl.gc(srv.s.clock(), srv.s.done, force)
+	return true
+}
+
+// VerifSetActivity pretends the table was last read / written the given durations ago.
+func VerifSetActivity(srv *Server, table string, readAgo, writeAgo time.Duration) bool {
+	srv.s.mu.Lock()
+	tbl, ok := srv.s.tables[table]
+	srv.s.mu.Unlock()
+	if !ok {
+		return false
+	}
+	now := time.Now()
+	atomic.StoreInt64(&tbl.lastReadNanos, now.Add(-readAgo).UnixNano())
+	atomic.StoreInt64(&tbl.lastWriteNanos, now.Add(-writeAgo).UnixNano())
+	return true
+}
